@@ -6,6 +6,7 @@
 -/
 import BezierVerif.Props.C02E
 import BezierVerif.Props.C11B
+import BezierVerif.Props.CardanoC
 import Mathlib.Analysis.Calculus.Deriv.Slope
 import Mathlib.Topology.Order.IntermediateValue
 
@@ -484,5 +485,84 @@ theorem line_hseg (sqrt : K → K) (lx px rx py : K) (e : Edge K) (hcL : eClear 
     have h1 : ¬ eHit lx px py e := fun hh => hs (hL.mp hh).1
     have h2 : ¬ eHit rx px py e := fun hh => hs (hR.mp hh).1
     simp only [h1, h2, if_false, List.length_nil]
+
+end C11B
+
+/-! ### (Hseg) for a cubic in the Cardano branch, from the regenerated root finder -/
+
+namespace C11B
+open Gen C05M Winding Inter
+
+/-- the y-polynomial `_findRoots('y')` solves for a cubic with these control points -/
+noncomputable def ypoly (q0 q1 q2 q3 : Pt ℝ) (t : ℝ) : ℝ :=
+  ((cubic_rootcoeffs_y_d q0.x q0.y q1.x q1.y q2.x q2.y q3.x q3.y * t + cubic_rootcoeffs_y_a q0.x q0.y q1.x q1.y q2.x q2.y q3.x q3.y) * t
+    + cubic_rootcoeffs_y_b q0.x q0.y q1.x q1.y q2.x q2.y q3.x q3.y) * t + cubic_rootcoeffs_y_c q0.x q0.y q1.x q1.y q2.x q2.y q3.x q3.y
+noncomputable def ypoly' (q0 q1 q2 q3 : Pt ℝ) (t : ℝ) : ℝ :=
+  (3 * cubic_rootcoeffs_y_d q0.x q0.y q1.x q1.y q2.x q2.y q3.x q3.y * t + 2 * cubic_rootcoeffs_y_a q0.x q0.y q1.x q1.y q2.x q2.y q3.x q3.y) * t
+    + cubic_rootcoeffs_y_b q0.x q0.y q1.x q1.y q2.x q2.y q3.x q3.y
+
+/-- "in the Cardano branch, every root in [0,1] simple, no root at an end" for an aligned copy -/
+structure CardanoOK (q0 q1 q2 q3 : Pt ℝ) : Prop where
+  code : cubic_findRoots_dispatch_v q0.x q0.y q1.x q1.y q2.x q2.y q3.x q3.y = 2
+  big : ¬ |cubic_rootcoeffs_y_d q0.x q0.y q1.x q1.y q2.x q2.y q3.x q3.y| ≤ (1 : ℝ) / 1000000 *
+          max (max |cubic_rootcoeffs_y_a q0.x q0.y q1.x q1.y q2.x q2.y q3.x q3.y| |cubic_rootcoeffs_y_b q0.x q0.y q1.x q1.y q2.x q2.y q3.x q3.y|)
+            |cubic_rootcoeffs_y_c q0.x q0.y q1.x q1.y q2.x q2.y q3.x q3.y|
+  simple : ∀ t, 0 ≤ t → t ≤ 1 → ypoly q0 q1 q2 q3 t = 0 → ypoly' q0 q1 q2 q3 t ≠ 0
+  e0 : ypoly q0 q1 q2 q3 0 ≠ 0
+  e1 : ypoly q0 q1 q2 q3 1 ≠ 0
+
+/-- two strictly increasing lists with the same members are equal -/
+theorem sorted_ext (l1 l2 : List ℝ) (h1 : l1.Pairwise (· < ·)) (h2 : l2.Pairwise (· < ·)) (h : ∀ t, t ∈ l1 ↔ t ∈ l2) : l1 = l2 := by
+  have n1 : l1.Nodup := h1.imp (fun h => ne_of_lt h)
+  have n2 : l2.Nodup := h2.imp (fun h => ne_of_lt h)
+  have hp : l1.Perm l2 := (List.perm_ext_iff_of_nodup n1 n2).mpr h
+  exact List.Perm.eq_of_pairwise (le := fun a b => a < b) (fun a b _ _ hab hba => absurd hab (not_lt.mpr (le_of_lt hba))) h1 h2 hp
+
+/-- **(Hseg) for a cubic segment, Cardano branch, from the regenerated code.**  The two aligned copies handed to the root finder are
+    cubics whose y-polynomials vanish exactly where the segment is level with the query point (for the exact alignment of a horizontal ray
+    they are ±(y − py)); both are in the Cardano branch with simple roots and no root at an end.  Then, in clear position, the crossings
+    the two rays report have the parity of the straddle indicator.  No hypothesis about what the root finder returns is left:
+    `cubic_root_list` (sound + complete + repetition-free) supplies it. -/
+theorem cubic_hseg_cardano (a b c d : Pt ℝ) (lx px rx py : ℝ) (l0 l1 l2 l3 r0 r1 r2 r3 : Pt ℝ)
+    (okL : CardanoOK l0 l1 l2 l3) (okR : CardanoOK r0 r1 r2 r3)
+    (zL : ∀ t, ypoly l0 l1 l2 l3 t = 0 ↔ ((Seg.cubic a b c d).eval t).y = py)
+    (zR : ∀ t, ypoly r0 r1 r2 r3 t = 0 ↔ ((Seg.cubic a b c d).eval t).y = py)
+    (hl : ¬ isclose px lx ((1 : ℝ) / 1000000000) 0) (hr : ¬ isclose px rx ((1 : ℝ) / 1000000000) 0) (hlr : lx < rx)
+    (hsimple : ∀ t, 0 < t → t < 1 → ((Seg.cubic a b c d).eval t).y = py →
+      (C02E.dcoeffs (Seg.cubic a b c d)).2.1 * t * t + (C02E.dcoeffs (Seg.cubic a b c d)).2.2.1 * t + (C02E.dcoeffs (Seg.cubic a b c d)).2.2.2 ≠ 0)
+    (h0 : a.y ≠ py) (h1 : d.y ≠ py)
+    (hclear : ∀ t, 0 < t → t < 1 → ((Seg.cubic a b c d).eval t).y = py →
+      within t = true ∧ PClear lx px rx ((Seg.cubic a b c d).eval t).x) :
+    ((segHits Real.sqrt (Seg.cubic a b c d) lx px py (Seg.cubic l0 l1 l2 l3)
+        (cubic_cardano_roots Real.pi Real.sqrt Real.cos Real.arccos Real.rpow l0.x l0.y l1.x l1.y l2.x l2.y l3.x l3.y)).length +
+     (segHits Real.sqrt (Seg.cubic a b c d) rx px py (Seg.cubic r0 r1 r2 r3)
+        (cubic_cardano_roots Real.pi Real.sqrt Real.cos Real.arccos Real.rpow r0.x r0.y r1.x r1.y r2.x r2.y r3.x r3.y)).length) % 2 =
+      if Straddle a.y d.y py then 1 else 0 := by
+  obtain ⟨sL, inL, allL⟩ := CardanoC.cubic_root_list l0 l1 l2 l3 okL.code okL.big okL.simple
+    (by have := okL.e0; simpa [ypoly] using this) (by have := okL.e1; simp only [ypoly] at this; intro h; apply this; linarith)
+  obtain ⟨sR, inR, allR⟩ := CardanoC.cubic_root_list r0 r1 r2 r3 okR.code okR.big okR.simple
+    (by have := okR.e0; simpa [ypoly] using this) (by have := okR.e1; simp only [ypoly] at this; intro h; apply this; linarith)
+  set LL := curveLineT Real.sqrt (Seg.cubic l0 l1 l2 l3)
+    (cubic_cardano_roots Real.pi Real.sqrt Real.cos Real.arccos Real.rpow l0.x l0.y l1.x l1.y l2.x l2.y l3.x l3.y) with hLL
+  set LR := curveLineT Real.sqrt (Seg.cubic r0 r1 r2 r3)
+    (cubic_cardano_roots Real.pi Real.sqrt Real.cos Real.arccos Real.rpow r0.x r0.y r1.x r1.y r2.x r2.y r3.x r3.y) with hLR
+  have hsame : LR = LL := by
+    apply sorted_ext _ _ sR sL
+    intro t
+    constructor
+    · intro ht
+      obtain ⟨t0, t1⟩ := inR t ht
+      exact (allL t t0 t1).mp ((zL t).mpr ((zR t).mp ((allR t t0 t1).mpr ht)))
+    · intro ht
+      obtain ⟨t0, t1⟩ := inL t ht
+      exact (allR t t0 t1).mp ((zR t).mpr ((zL t).mp ((allL t t0 t1).mpr ht)))
+  have hallS : ∀ t, 0 < t → t < 1 → (((Seg.cubic a b c d).eval t).y = py ↔ t ∈ LL) := fun t t0 t1 =>
+    ⟨fun h => (allL t t0 t1).mp ((zL t).mpr h), fun h => (zL t).mp ((allL t t0 t1).mpr h)⟩
+  have := curve_hseg (Seg.cubic a b c d) (by simp [Seg.order, Seg.points]) lx px rx py (Seg.cubic l0 l1 l2 l3) (Seg.cubic r0 r1 r2 r3) _ _ LL
+    rfl hsame hl hr hlr sL inL hallS
+    (fun t ht => hsimple t (inL t ht).1 (inL t ht).2 ((hallS t (inL t ht).1 (inL t ht).2).mpr ht))
+    h0 h1
+    (fun t ht => hclear t (inL t ht).1 (inL t ht).2 ((hallS t (inL t ht).1 (inL t ht).2).mpr ht))
+  exact this
 
 end C11B
